@@ -257,7 +257,11 @@ def in_rows(k0):
                         list(edits(cols[ci]))[i]()
                     except (TypeError, AttributeError):
                         pass
-                    if obs() != before:
+                    try:
+                        now = obs()
+                    except Exception as exc:  # noqa: BLE001   (the library now chokes on what the caller put into ITS collection)
+                        now = ("observer raised", type(exc).__name__)
+                    if now != before:
                         leaks = True
             rows.append((k, "%s / caching %s" % (name, "on" if caching else "off"), leaks))
             k += 1
@@ -301,6 +305,13 @@ def in_rows(k0):
         arg = {Vertex: inner}
         L = UniverseLaws(edge_whitelist=arg)
         return [arg, inner], lambda: tuple((id(k), tuple((id(a), id(b)) for a, b in i.items())) for k, i in L.edge_whitelist.items())
+
+    def b_laws_whitelist_empty(caching):
+        # an EMPTY table ("nothing is allowed") that the caller fills in afterwards, e.g. to build a second law set from it
+        Vertex.NEIGHBOR_CACHING = caching
+        arg = {}
+        L = UniverseLaws(edge_whitelist=arg)
+        return [arg], lambda: tuple(id(k) for k in L.edge_whitelist)
 
     def b_laws_whitelist_proxy(caching):
         Vertex.NEIGHBOR_CACHING = caching
@@ -364,6 +375,7 @@ def in_rows(k0):
     case("Link(vertices=list)", b_link_vertices)
     case("Universe(vertices=list)", b_universe_vertices)
     case("UniverseLaws(edge_whitelist=dict of dicts)", b_laws_whitelist)
+    case("UniverseLaws(edge_whitelist=empty dict)", b_laws_whitelist_empty)
     case("UniverseLaws(edge_whitelist=dict of read-only views)", b_laws_whitelist_proxy)
     case("load_adj_dict(dict of lists)", b_adjdict)
     case("load_adj_matrix(matrix, side array)", b_adjmat)
